@@ -19,6 +19,14 @@ x s^3, everything combinatorial unchanged: observations are converted exactly in
 tolerance is relative to it); ':sort=False' - mouette.config.sort_neighborhoods off while the mesh is built, queried,
 processed and judged; ':face_order=rotated' - every face of the list in position 0 in turn (also under ':sort=False');
 ':arg=numpy_int' - face / cell / edge indices handed over as numpy.int64.
+
+Call forms and defaults (input classes name the parameter and the form): the documented signatures are pinned in SIGNATURES
+(names, order, defaults - copied from the unchanged tree, not read at run time). Every entry point is called with each
+optional argument omitted (one at a time, all together: constructor x operation), with its arguments by keyword, with the
+set of sides given to triangulate_face, with the repetition count as numpy.int64 - and must do exactly what the fully explicit
+positional call with the documented defaults does (that form is tied to the reference model by the main exploration, which
+passes every option of the operations explicitly). `verbose` is observed through the editor's log(). A guard compares the
+pinned table with inspect.signature(): a default that differs from the documented one is reported as a violation.
 """
 from __future__ import annotations
 import itertools, pickle
@@ -33,7 +41,9 @@ TECHNIQUE = ("explicit-state BFS over operation sequences inside one editing blo
              "queried before, not queried} x {completion switches on, off} x {block completed, left by the caller's exception, "
              "left by a rejected argument}, vs an exact reference refinement model + independent validity/topology/"
              "connectivity oracles; deviations of the setting (unit of length 2^-100 / 2^100, config.sort_neighborhoods off, "
-             "face order, numpy integer indices) over a representative subset with the same clauses")
+             "face order, numpy integer indices) over a representative subset with the same clauses; call forms (optional arguments "
+             "omitted one at a time / all together, arguments by keyword, sides given, numpy count) vs the fully explicit positional "
+             "call with the pinned documented defaults, + pinned signature table vs inspect.signature")
 RULE = ("inputs: labelled oriented manifold complexes SURF (triangle, quad, mixed, pentagon), ZOO specimens, all conforming "
         "tetrahedral complexes TET(<=5) in two cell orientations, all graphs GRAPH(<=4) as polylines; per input a BFS over "
         "event sequences (surface: triangulate, triangulate_face(f), split_face_as_fan(f), loop_subdivision(1|2), "
@@ -50,6 +60,12 @@ RULE = ("inputs: labelled oriented manifold complexes SURF (triangle, quad, mixe
         "and x 2^100, with config.sort_neighborhoods off (here also every rotation of the face list and the sorted cell "
         "orientation, connectivity queried before or not), with numpy.int64 indices; every rotation of the face list of the "
         "classes under the default configuration (with and without edge completion); "
+        "call forms: per SURF class / 7 ZOO specimens every single operation of the initial state + loop_subdivision(2), "
+        "subdivide_triangles_6(2); per TET complex split_cell_as_fan / split_tet_from_face_center on the first and last element; "
+        "per GRAPH split_edge on the first and last edge; each as one complete block in the forms {constructor: explicit, "
+        "verbose omitted, by keyword} x {operation: explicit, optional argument omitted, by keyword, sides given positionally / "
+        "by keyword, count as numpy.int64} restricted to one deviation from the explicit form at a time + all optional arguments "
+        "omitted together; verbose on / off positionally and by keyword on the first operation of every input; "
         "a case = one distinct (input, deviation, raw state reached); non-trivial = at least one element was refined")
 ASSUMPTIONS = [
     "inputs are oriented manifold polygon complexes / conforming tetrahedral complexes / simple graphs within the size bounds; larger meshes only through the ZOO specimens; coordinates: integer moment curve (generic) for SURF/TET/GRAPH, the specimens' own coordinates for ZOO",
@@ -66,6 +82,7 @@ ASSUMPTIONS = [
     "config.sort_neighborhoods is a documented switch of mouette.config (vertex rings unsorted); the statement does not depend on it. It is off from before the mesh is built until the last answer has been judged (restored in a finally); the accessor tables of C01 / C03 are instantiated for that value (ring answers are then judged as sets)",
     "face order: rotating the face list of a complex gives another admissible input; every face of every SURF class is put in position 0 in turn (index 0 is also the first argument tried for every indexed operation)",
     "indices given as numpy.int64: the documentation says 'int'; an index read from a numpy array is the usual way to obtain one and the unchanged library accepts it everywhere, so the same clauses are demanded (only the operations that take an index are run)",
+    "call forms: the signature is the documentation of a default (SIGNATURES pins names, order and defaults of the unchanged tree; docstring prose is not used). Omitting an optional argument must mean passing its documented default, passing arguments by keyword must mean passing them positionally in the documented order: demanded is exact equality of everything observable with the fully explicit positional block on the same input - text printed, raw state after the operation (vertices, faces, cells, edge set), the mesh handed back (containers, corners, edge set), whether the object passed in equals it, exception class. `sides` of triangulate_face is documented as 'the set of all sides of faces of the mesh, as sorted pairs. Computed if not provided': a fresh set of the current sides computed by the driver must give the result of the computed one (the set may be updated by the call - not judged). `verbose` only decides whether the editor's inherited log() prints: off (documented default) must be silent, on must print the probe, the meshes must not depend on it. A repetition count given as numpy.int64 must mean the Python int (the unchanged library accepts it). The signature guard tolerates additional trailing parameters that have a default and a required parameter that acquires one (counted); everything else that differs from the pinned table is a violation of C13.defaults.signature",
     "history dimension: a block left by an exception. The unchanged library rebuilds the object passed in whenever the block is left (its __exit__ ignores the exception and lets it propagate), so the object equals the result of the completed block of the operations done so far; demanded is only the statement: unchanged or equal to that result, all connectivity answers describing its own containers. An index equal to the number of faces/cells/edges is rejected with IndexError before anything is written by every operation of the unchanged library; the rejection itself is not demanded (an accepted index is counted and skipped), nor is the propagation of the exception (counted)",
 ]
 BOUNDS = {
@@ -83,7 +100,9 @@ BOUNDS = {
               "(weight 1 + loop_subdivision(2), subdivide_triangles_6(2)) + 7 ZOO specimens + 27 TET complexes (positive, single operations) + 71 graphs "
               "(<= 2 splits), not queried; sort_neighborhoods off: the same + the 87 other rotations of the face lists (weight 1) + TET sorted, queried and "
               "not; face order: the 87 rotations, default configuration, not queried, with the completion-off block; numpy.int64 indices: 40 classes "
-              "(indexed operations only), 27 TET, 71 graphs, queried and not"),
+              "(indexed operations only), 27 TET, 71 graphs, queried and not; call forms: 40 SURF classes + 7 ZOO specimens (events of the initial state: 6 global + "
+              "first face of each arity and the last face for triangulate_face / split_face_as_fan; 2..7 further blocks per event), 27 TET complexes "
+              "(positive; 4 events x 3 blocks), 71 graphs (<= 2 edges x 3 calls), 12 pinned signatures with 5 defaults; no connectivity answers judged there"),
     "thorough": ("refined meshes of more than 400 faces are not produced; surface: weight <= 3 on the classes of SURF triangles n<=5, triangle+quad n=4, "
                  "pentagons (13); weight <= 2 on every class, on every labelled complex on <= 4 vertices and on every single-transposition relabeling of the "
                  "triangle and pentagon classes on 5 vertices (142); weight <= 1 on every labelled triangle / pentagon complex on 5 vertices and every "
@@ -91,7 +110,7 @@ BOUNDS = {
                  "arguments: every face when the state has <= 6 faces; volume: sequences <= 2 with every cell and face argument at both steps, both cell "
                  "orientations; <= 3 with representatives (positive orientation); polyline: split_edge sequences <= 4; accessor domains capped at 200 arguments; "
                  "completion switches off and blocks left by an exception: as in quick, over the thorough sequences (abandoned prefixes: <= 2 operations); "
-                 "deviations: as in quick, the SURF classes under sort_neighborhoods off at weight <= 2"),
+                 "deviations: as in quick, the SURF classes under sort_neighborhoods off at weight <= 2; call forms: as in quick (specimens of the thorough ZOO list)"),
 }
 
 
@@ -208,7 +227,7 @@ def tasks(tier):
     B = 8 if tier == "quick" else 2
     for i in range(0, len(graphs), B):
         out.append({"fam": "graph", "depth": 3 if tier == "quick" else 4, "graphs": graphs[i:i + B]})
-    return out + _deviation_tasks(tier, ins, tets, graphs)
+    return out + _deviation_tasks(tier, ins, tets, graphs) + _forms_tasks(tier, ins, tets, graphs)
 
 
 # =========================================================================================== deviations
@@ -1646,6 +1665,403 @@ def explore_polyline(M, n, edges, depth, rep: Report, scale=1.0, lite=None):
         rep.flag("polyline_disconnected")
 
 
+# =========================================================================================== call forms and defaults
+# The documented signatures of the unchanged tree (parameter names in the documented order, self omitted, and the
+# documented default of every optional parameter), PINNED here: they are not read from the library at run time - a
+# change of a default changes the signature with it. Two uses: (1) the behavioural clauses below - every optional
+# parameter omitted (one at a time, all together) must mean the pinned default passed explicitly, every parameter
+# passed by keyword must mean the same as passed positionally in the pinned order; (2) the guard check_signatures().
+REQUIRED = "<required>"
+SIGNATURES = {
+    "split_edge": [("polyline", REQUIRED), ("edge_ind", REQUIRED)],
+    "SurfaceSubdivision.__init__": [("mesh", REQUIRED), ("verbose", False)],
+    "SurfaceSubdivision.triangulate_face": [("face_id", REQUIRED), ("sides", None)],
+    "SurfaceSubdivision.split_face_as_fan": [("face_id", REQUIRED)],
+    "SurfaceSubdivision.triangulate": [],
+    "SurfaceSubdivision.loop_subdivision": [("n", 1)],
+    "SurfaceSubdivision.subdivide_triangles_6": [("repeat", 1)],
+    "SurfaceSubdivision.subdivide_triangles_3quads": [],
+    "split_double_boundary_edges_triangles": [("mesh", REQUIRED)],
+    "VolumeSubdivision.__init__": [("mesh", REQUIRED), ("verbose", False)],
+    "VolumeSubdivision.split_cell_as_fan": [("cell_id", REQUIRED)],
+    "VolumeSubdivision.split_tet_from_face_center": [("face_id", REQUIRED)],
+}
+DEFAULTS = {(c, p): d for c, ps in SIGNATURES.items() for p, d in ps if d is not REQUIRED}     # the table of documented defaults
+D_VERBOSE = DEFAULTS[("SurfaceSubdivision.__init__", "verbose")]
+D_VERBOSE_VOL = DEFAULTS[("VolumeSubdivision.__init__", "verbose")]
+D_SIDES = DEFAULTS[("SurfaceSubdivision.triangulate_face", "sides")]
+D_N = DEFAULTS[("SurfaceSubdivision.loop_subdivision", "n")]
+D_REPEAT = DEFAULTS[("SurfaceSubdivision.subdivide_triangles_6", "repeat")]
+SUB_SIG, SUB_OMIT, SUB_KW, SUB_SIDES, SUB_NPCOUNT, SUB_VERBOSE = ("C13.defaults.signature", "C13.defaults.omitted", "C13.callform.keyword",
+                                                                  "C13.callform.sides_given", "C13.callform.numpy_int_count", "C13.callform.verbose")
+
+
+def _same_default(got, want):
+    return got is want if (want is None or isinstance(want, bool)) else (type(got) is type(want) and got == want)
+
+
+def _resolve(callee):
+    import mouette.mesh.subdivision as S
+    obj = S
+    for part in callee.split("."):
+        obj = getattr(obj, part)
+    return obj
+
+
+def check_signatures(rep: Report):
+    """guard: the pinned table against inspect.signature(). A default that differs from the documented one IS the defect
+    (reported as a violation of its own subcheck, class = the parameter); so is a pinned parameter that is missing,
+    renamed, moved or no longer callable both positionally and by keyword. Additional trailing parameters that have a
+    default are tolerated (counted)."""
+    import inspect
+    for callee, want in SIGNATURES.items():
+        rep.traces += 1
+        o = call(_resolve, callee)
+        if not o.ok:
+            rep.violation(SUB_SIG, callee, "mismatch:entry_point_missing", "entry_point", {"callee": callee, "msg": o.msg}); continue
+        o = call(inspect.signature, o.value)
+        if not o.ok:
+            rep.violation(SUB_SIG, callee, "mismatch:signature_unreadable", "entry_point", {"callee": callee, "msg": o.msg}); continue
+        params = list(o.value.parameters.values())
+        if "." in callee:
+            params = params[1:]          # self
+        found = [[p.name, "<required>" if p.default is inspect.Parameter.empty else repr(p.default), str(p.kind)] for p in params]
+        det = {"callee": callee, "documented": [[n, d if d is REQUIRED else repr(d)] for n, d in want], "found": found}
+        rep.flag("signature:" + callee)
+        for i, (name, dflt) in enumerate(want):
+            rep.evaluations += 3
+            rep.flag(f"signature:{callee}:{name}")
+            if i >= len(params) or params[i].name != name:
+                rep.violation(SUB_SIG, callee, "mismatch:parameter_name_or_order", name, det); break
+            p = params[i]
+            if p.kind is not inspect.Parameter.POSITIONAL_OR_KEYWORD:
+                rep.violation(SUB_SIG, callee, "mismatch:parameter_kind", name, det); continue
+            if dflt is REQUIRED:
+                if p.default is not inspect.Parameter.empty:
+                    rep.count("signature:required_parameter_acquired_a_default")      # harmless extension, not judged
+            elif p.default is inspect.Parameter.empty:
+                rep.violation(SUB_SIG, callee, "mismatch:default_removed", name, det)
+            elif not _same_default(p.default, dflt):
+                rep.violation(SUB_SIG, callee, "mismatch:default_value", name, det)
+        for p in params[len(want):]:
+            if p.default is inspect.Parameter.empty and p.kind in (inspect.Parameter.POSITIONAL_OR_KEYWORD, inspect.Parameter.POSITIONAL_ONLY,
+                                                                    inspect.Parameter.KEYWORD_ONLY):
+                rep.violation(SUB_SIG, callee, "mismatch:new_required_parameter", p.name, det)
+            else:
+                rep.count("signature:additional_optional_parameter")
+    rep.count("forms:signature_guards")
+
+
+def _np_count(k):
+    import numpy as np
+    return np.int64(k)
+
+
+def _make_editor(cls, m, form, dflt):
+    """forms of the constructor: every parameter positional with the documented default | optional omitted | all by keyword"""
+    if form == "explicit": return cls(m, dflt)
+    if form == "omitted": return cls(m)
+    if form == "keyword": return cls(mesh=m, verbose=dflt)
+    if form == "verbose_on": return cls(m, True)
+    if form == "verbose_on_keyword": return cls(verbose=True, mesh=m)
+    if form == "verbose_off_keyword": return cls(verbose=False, mesh=m)
+    raise ValueError(form)
+
+
+# kind -> (entry point, optional parameter or None, forms of the call besides 'explicit')
+SURF_OP_FORMS = {
+    "T": (None, ()), "Q3": (None, ()),
+    "FAN": (None, ("keyword",)),
+    "TF": ("sides", ("omitted", "keyword", "sides_given", "sides_given_keyword")),
+    "L": ("n", ("omitted", "keyword", "numpy_int")), "L2": ("n", ("keyword", "numpy_int")),
+    "S6": ("repeat", ("omitted", "keyword", "numpy_int")), "S6x2": ("repeat", ("keyword", "numpy_int")),
+}
+
+
+def _apply_surf_form(ed, kind, arg, form, sides):
+    """'explicit' = every parameter positional, optional ones with the documented default"""
+    if kind == "T": return ed.triangulate()
+    if kind == "Q3": return ed.subdivide_triangles_3quads()
+    if kind == "FAN":
+        return ed.split_face_as_fan(arg) if form == "explicit" else ed.split_face_as_fan(face_id=arg)
+    if kind == "TF":
+        if form == "explicit": return ed.triangulate_face(arg, D_SIDES)
+        if form == "omitted": return ed.triangulate_face(arg)
+        if form == "keyword": return ed.triangulate_face(sides=D_SIDES, face_id=arg)
+        if form == "sides_given": return ed.triangulate_face(arg, set(sides))
+        if form == "sides_given_keyword": return ed.triangulate_face(sides=set(sides), face_id=arg)
+    if kind in ("L", "L2"):
+        k = D_N if kind == "L" else 2
+        if form == "explicit": return ed.loop_subdivision(k)
+        if form == "omitted" and kind == "L": return ed.loop_subdivision()
+        if form == "keyword": return ed.loop_subdivision(n=k)
+        if form == "numpy_int": return ed.loop_subdivision(_np_count(k))
+    if kind in ("S6", "S6x2"):
+        k = D_REPEAT if kind == "S6" else 2
+        if form == "explicit": return ed.subdivide_triangles_6(k)
+        if form == "omitted" and kind == "S6": return ed.subdivide_triangles_6()
+        if form == "keyword": return ed.subdivide_triangles_6(repeat=k)
+        if form == "numpy_int": return ed.subdivide_triangles_6(_np_count(k))
+    raise ValueError((kind, form))
+
+
+def _apply_vol_form(ed, kind, arg, form, sides=None):
+    if kind == "CFAN":
+        return ed.split_cell_as_fan(arg) if form == "explicit" else ed.split_cell_as_fan(cell_id=arg)
+    if kind == "FSPLIT":
+        return ed.split_tet_from_face_center(arg) if form == "explicit" else ed.split_tet_from_face_center(face_id=arg)
+    raise ValueError((kind, form))
+
+
+def _form_block(cls, build, snap, apply, dflt, kind, arg, cform, oform, sides=None):
+    """one complete editing block in the given forms of the constructor and of the operation. Everything observable is
+    returned: what the block printed (with a probe through the editor's log() right after construction - the only thing
+    `verbose` stands for), the raw state after the operation, the mesh handed back, whether the object passed in equals it"""
+    import io, contextlib
+    out = io.StringIO()
+    res = {"exc": None}
+    m = build()
+    try:
+        with contextlib.redirect_stdout(out):
+            ed = _make_editor(cls, m, cform, dflt)
+            ed.log("probe")
+            with ed:
+                apply(ed, kind, arg, oform, sides)
+                raw = ed.mesh
+                res["raw"] = {"V": _pts(raw.vertices), "F": _rows(raw.faces), "E": _pairs(raw.edges),
+                              "C": _rows(raw.cells) if hasattr(raw, "cells") else None}
+            s = snap(ed.mesh)
+            s["E"] = _pairs(s["E"])
+            res["result"] = s
+            res["type"] = type(ed.mesh).__name__
+            si = snap(m)
+            si["E"] = _pairs(si["E"])
+            res["input_equals_result"] = si == s
+    except Exception as ex:   # noqa
+        res["exc"] = type(ex).__name__
+        res["msg"] = str(ex)[:200]
+    res["printed"] = out.getvalue()
+    return res
+
+
+def _form_diff(a, b):
+    return [k for k in sorted(set(a) | set(b)) if k != "msg" and a.get(k) != b.get(k)]
+
+
+def _form_combos(opt, oforms):
+    """(constructor form, operation form, subcheck, the constructor is the callee?, class). Reference = ('explicit', 'explicit').
+    Optional parameters omitted one at a time and all together; by keyword (constructor, operation); the remaining forms
+    of the operation."""
+    combos = [("omitted", "explicit", SUB_OMIT, True, "verbose:omitted"),
+              ("keyword", "explicit", SUB_KW, True, "all_arguments_by_keyword")]
+    if "omitted" in oforms:
+        combos.append(("explicit", "omitted", SUB_OMIT, False, f"{opt}:omitted"))
+        combos.append(("omitted", "omitted", SUB_OMIT, False, "all_optional_arguments:omitted"))
+    if "keyword" in oforms:
+        combos.append(("explicit", "keyword", SUB_KW, False, "all_arguments_by_keyword"))
+    for f in oforms:
+        if f.startswith("sides_given"):
+            combos.append(("explicit", f, SUB_SIDES, False, "sides:" + ("positional" if f == "sides_given" else "keyword")))
+        elif f == "numpy_int":
+            combos.append(("explicit", f, SUB_NPCOUNT, False, f"{opt}:numpy_int"))
+    return combos
+
+
+def _forms_of_event(rep, cls, cname, ctor_default, build, snap, apply, callee, opt, oforms, kind, arg, detail, sides=None):
+    """run one operation in every call form and demand, exactly, what the fully explicit form gives"""
+    ctor = cname + ".__init__"
+    ref = _form_block(cls, build, snap, apply, ctor_default, kind, arg, "explicit", "explicit", sides)
+    rep.traces += 1; rep.transitions += 1
+    rep.flag(f"forms:{ctor}:verbose:explicit_default")
+    if opt:
+        rep.flag(f"forms:{callee}:{opt}:explicit_default")
+    if ref["exc"] is not None:
+        rep.count("forms:explicit_form_raised_judged_by_the_main_exploration"); return None
+    failed_single = False
+    for cform, oform, sub, on_ctor, cls_ in _form_combos(opt, oforms):
+        rep.traces += 1; rep.transitions += 1; rep.evaluations += 6
+        got = _form_block(cls, build, snap, apply, ctor_default, kind, arg, cform, oform, sides)
+        if cform in ("omitted", "keyword"):
+            rep.flag(f"forms:{ctor}:verbose:{cform}")
+        if cform == "keyword":
+            rep.flag(f"forms:{ctor}:keyword")
+        if oform == "keyword":
+            rep.flag(f"forms:{callee}:keyword")
+        if opt and oform in ("omitted", "keyword"):
+            rep.flag(f"forms:{callee}:{opt}:{oform}")
+        if oform not in ("explicit", "omitted", "keyword"):
+            rep.flag(f"forms:{callee}:{oform}")
+        rep.count("forms:blocks_compared")
+        diff = _form_diff(got, ref)
+        if not diff:
+            continue
+        if cls_ == "all_optional_arguments:omitted" and failed_single:
+            continue          # already reported for the parameter that matters
+        if sub == SUB_OMIT:
+            failed_single = True
+        who = ctor if on_ctor else callee
+        knd = "raises:" + got["exc"] if got["exc"] is not None else "mismatch:" + (
+            "differs_from_documented_default" if sub == SUB_OMIT else "differs_from_positional_call" if sub == SUB_KW else
+            "differs_from_computed_sides" if sub == SUB_SIDES else "differs_from_python_int")
+        rep.violation(sub, who, knd, cls_, dict(detail, operation=[kind, arg], constructor_form=cform, operation_form=oform,
+                                                differs_in=diff, msg=got.get("msg"), explicit_call_is="every parameter positional, optional ones = documented default",
+                                                documented_defaults={f"{c}.{p}": repr(d) for (c, p), d in DEFAULTS.items() if c in (ctor, callee)}))
+    return ref
+
+
+def _forms_verbose(rep, cls, cname, ctor_default, build, snap, apply, kind, arg, detail, ref):
+    """`verbose` stands for one thing: whether the editor's log() prints. The documented default (False) must be silent,
+    True must print - positionally and by keyword - and the meshes must not depend on it"""
+    ctor = cname + ".__init__"
+    rep.evaluations += 4
+    if ref["printed"] != "":
+        rep.violation(SUB_VERBOSE, ctor, "mismatch:prints_although_verbose_is_off", "verbose:False", dict(detail, printed=ref["printed"][:200])); return
+    for cform in ("verbose_on", "verbose_on_keyword", "verbose_off_keyword"):
+        rep.traces += 1; rep.transitions += 1
+        got = _form_block(cls, build, snap, apply, ctor_default, kind, arg, cform, "explicit")
+        want_print = cform != "verbose_off_keyword"
+        cls_ = "verbose:" + ("True" if want_print else "False") + (":keyword" if cform.endswith("keyword") else ":positional")
+        if got["exc"] is not None:
+            rep.violation(SUB_VERBOSE, ctor, "raises:" + got["exc"], cls_, dict(detail, msg=got.get("msg"), constructor_form=cform)); continue
+        if ("probe" in got["printed"]) != want_print:
+            rep.violation(SUB_VERBOSE, ctor, "mismatch:verbose_flag_not_honoured", cls_, dict(detail, printed=got["printed"][:200], constructor_form=cform)); continue
+        if [k for k in _form_diff(got, ref) if k != "printed"]:
+            rep.violation(SUB_VERBOSE, ctor, "mismatch:mesh_depends_on_verbose", cls_, dict(detail, constructor_form=cform)); continue
+        if want_print:
+            rep.flag(f"forms:{ctor}:verbose_matters")
+    rep.count("forms:verbose_probes")
+
+
+def forms_surface(cx: SurfCtx):
+    """every single operation (+ the two repeated refinements) on the initial state of the input, in every call form"""
+    from mouette.mesh.subdivision import SurfaceSubdivision, split_double_boundary_edges_triangles as sdb
+    rep = cx.rep
+    st = {"F": cx.F0, "depth": 0}
+    sides = F.undirected_edges(cx.F0)
+    first = True
+    results = {}
+    for kind, arg in _surf_events(st, 1, False, True, cx.max_faces, rep):
+        opt, oforms = SURF_OP_FORMS[kind]
+        ref = _forms_of_event(rep, SurfaceSubdivision, "SurfaceSubdivision", D_VERBOSE, cx.build, _snap_surf, _apply_surf_form, S_CALLEE[kind], opt, oforms,
+                              kind, arg, cx.base, sides)
+        if ref is None:
+            continue
+        results[(kind, arg)] = ref["result"]["F"]
+        rep.case((cx.name, "forms", kind, arg))
+        rep.outcome("forms:" + kind, len(ref["result"]["F"]) - len(cx.F0))
+        if kind == "TF" and len(cx.F0[arg]) == 4:
+            rep.flag("forms:sides_given_for_a_quad")
+            if R.quad_with_taken_diagonal(cx.F0, {arg}):
+                rep.flag("forms:sides_given_for_a_quad_with_taken_diagonal")
+        if first:
+            first = False
+            _forms_verbose(rep, SurfaceSubdivision, "SurfaceSubdivision", D_VERBOSE, cx.build, _snap_surf, _apply_surf_form, kind, arg, cx.base, ref)
+    # vacuity: the count handed over matters (2 is not the default)
+    for a, b, p in ((("L", None), ("L2", None), "n"), (("S6", None), ("S6x2", None), "repeat")):
+        if a in results and b in results and results[a] != results[b]:
+            rep.flag(f"forms:{p}_matters")
+    # the standalone function: positional / by keyword
+    if cx.arity == "3":
+        def run(kw):
+            m = cx.build()
+            o = call(sdb, mesh=m) if kw else call(sdb, m)
+            if not o.ok:
+                return {"exc": o.exc, "msg": o.msg}
+            s = _snap_surf(o.value); s["E"] = _pairs(s["E"])
+            return {"exc": None, "result": s, "is_input": o.value is m, "type": type(o.value).__name__}
+        rep.traces += 2; rep.transitions += 2; rep.evaluations += 4
+        a, b = run(False), run(True)
+        rep.flag("forms:" + S_CALLEE["SDB"] + ":keyword")
+        if a["exc"] is None and _form_diff(a, b):
+            rep.violation(SUB_KW, S_CALLEE["SDB"], "raises:" + b["exc"] if b["exc"] else "mismatch:differs_from_positional_call", "all_arguments_by_keyword",
+                          dict(cx.base, differs_in=_form_diff(a, b), msg=b.get("msg")))
+    rep.count("forms:surface_inputs")
+
+
+def forms_volume(cx: VolCtx):
+    from mouette.mesh.subdivision import VolumeSubdivision
+    rep = cx.rep
+    C, Fl = cx.s0["C"], cx.s0["F"]
+    first = True
+    for kind, arg in [("CFAN", 0), ("CFAN", len(C) - 1), ("FSPLIT", 0), ("FSPLIT", len(Fl) - 1)]:
+        ref = _forms_of_event(rep, VolumeSubdivision, "VolumeSubdivision", D_VERBOSE_VOL, cx.build, _snap_vol, _apply_vol_form, V_CALLEE[kind], None, ("keyword",),
+                              kind, arg, cx.base)
+        if ref is None:
+            continue
+        rep.case((cx.name, "forms", kind, arg))
+        rep.outcome("forms:" + kind, len(ref["result"]["C"]) - len(C))
+        if first:
+            first = False
+            _forms_verbose(rep, VolumeSubdivision, "VolumeSubdivision", D_VERBOSE_VOL, cx.build, _snap_vol, _apply_vol_form, kind, arg, cx.base, ref)
+    rep.count("forms:volume_inputs")
+
+
+def forms_polyline(M, n, edges, rep: Report):
+    """split_edge(polyline, edge_ind): positional | both by keyword (in the other order) | index by keyword"""
+    from mouette.mesh.subdivision import split_edge
+    pts = F.moment_curve(n)
+    base = {"points": [list(p) for p in pts], "edges": [list(e) for e in edges]}
+
+    def run(form, e):
+        pl = F.build_polyline(pts, edges, tuple)
+        o = (call(split_edge, pl, e) if form == "explicit" else call(split_edge, edge_ind=e, polyline=pl) if form == "keyword"
+             else call(split_edge, pl, edge_ind=e))
+        if not o.ok:
+            return {"exc": o.exc, "msg": o.msg}
+        s = call(_snap_line, o.value)
+        return {"exc": None, "result": s.value if s.ok else s.exc, "is_input": o.value is pl, "type": type(o.value).__name__}
+    for e in sorted({0, len(edges) - 1}):
+        ref = run("explicit", e)
+        rep.traces += 3; rep.transitions += 3; rep.evaluations += 4
+        if ref["exc"] is not None:
+            rep.count("forms:explicit_form_raised_judged_by_the_main_exploration"); continue
+        rep.outcome("forms:split_edge", "ok")
+        for form, cls_ in (("keyword", "all_arguments_by_keyword"), ("mixed", "edge_ind:keyword")):
+            got = run(form, e)
+            rep.count("forms:blocks_compared")
+            rep.flag("forms:split_edge:keyword")
+            if _form_diff(got, ref):
+                rep.violation(SUB_KW, "split_edge", "raises:" + got["exc"] if got["exc"] else "mismatch:differs_from_positional_call", cls_,
+                              dict(base, edge=e, call_form=form, differs_in=_form_diff(got, ref), msg=got.get("msg")))
+    rep.count("forms:polyline_inputs")
+
+
+def _forms_tasks(tier, ins, tets, graphs):
+    """call forms / defaults: the 40 SURF classes, 7 ZOO specimens, every TET complex (positive), every GRAPH; single
+    operations on the initial state (+ loop_subdivision(2), subdivide_triangles_6(2)); default configuration"""
+    out = [{"fam": "signature"}]
+    classes = [x for x in ins if x[0].split("c#")[-1].isdigit() and "c#" in x[0]]
+    for i in range(0, len(classes), 5):
+        out.append({"fam": "forms", "what": "surf", "max_faces": 160, "meshes": [[x[0], x[1], x[2]] for x in classes[i:i + 5]]})
+    for name, p, f in _zoo(tier):
+        if name in ZOO_DEV:
+            out.append({"fam": "forms", "what": "surf", "max_faces": 160, "zoo": [name, p, f]})
+    for i in range(0, len(tets), 14):
+        out.append({"fam": "forms", "what": "tet", "complexes": tets[i:i + 14]})
+    out.append({"fam": "forms", "what": "graph", "graphs": graphs})
+    return out
+
+
+def _run_forms(M, task, rep: Report):
+    lite = {"queried": False, "config_off": False, "abandoned": False}
+    if task["what"] == "surf":
+        recs = [(n_, [tuple(q) for q in p], [tuple(g) for g in f]) for n_, p, f in ([task["zoo"]] if "zoo" in task else [])]
+        recs += [(name, F.moment_curve(n), [tuple(g) for g in fl]) for name, n, fl in task.get("meshes", [])]
+        for name, pts, faces in recs:
+            cx = SurfCtx(M, name + ":forms", pts, faces, 1, 30, False, rep, True, task["max_faces"], 1.0, lite)
+            if len(set(cx.P0)) != len(cx.P0):
+                rep.count("filtered_coincident_vertices"); continue
+            forms_surface(cx)
+            for f in cx.F0:
+                rep.flag("forms:arity%d" % min(len(f), 5))
+    elif task["what"] == "tet":
+        for name, n, cells in task["complexes"]:
+            forms_volume(VolCtx(M, name + ":forms", n, [tuple(c) for c in cells], "positive", 1, 30, False, rep, 1.0, lite))
+    else:
+        for n, edges in task["graphs"]:
+            forms_polyline(M, n, [tuple(e) for e in edges], rep)
+
+
 # =========================================================================================== entry points
 def run_task(task, rep: Report):
     import mouette as M
@@ -1674,7 +2090,11 @@ def run_task(task, rep: Report):
 def _run_task(M, task, rep: Report):
     fam = task["fam"]
     scale, lite, sfx = UNIT[0], task.get("lite"), (":" + task["dev"] if task.get("dev") else "")
-    if fam == "surf":
+    if fam == "signature":
+        check_signatures(rep)
+    elif fam == "forms":
+        _run_forms(M, task, rep)
+    elif fam == "surf":
         recs = []
         if "zoo" in task:
             name, p, f, d = task["zoo"]
@@ -1787,4 +2207,36 @@ def finish(tier, rep: Report):
         fails.append(f"deviation {DEV_SORT}: the object passed in was never judged")
     if not rep.counters.get(DEV_ORDER + ":config_off:surface_blocks"):
         fails.append(f"deviation {DEV_ORDER}: no block was run with edge completion off")
+    # ---- call forms and defaults: every entry of the pinned table exercised, every entry point called by keyword
+    if rep.counters.get("forms:signature_guards") != 1:
+        fails.append("the signature guard did not run exactly once")
+    for callee, params in SIGNATURES.items():
+        if "signature:" + callee not in rep.flags:
+            fails.append(f"signature guard: {callee} was not compared")
+        for name, dflt in params:
+            if f"signature:{callee}:{name}" not in rep.flags:
+                fails.append(f"signature guard: parameter {name} of {callee} was not compared")
+        if params and f"forms:{callee}:keyword" not in rep.flags:
+            fails.append(f"call forms: {callee} was never called with its arguments by keyword")
+    for (callee, name), dflt in DEFAULTS.items():
+        for form in ("explicit_default", "omitted", "keyword"):
+            if f"forms:{callee}:{name}:{form}" not in rep.flags:
+                fails.append(f"defaults: {callee}({name}={dflt!r}) was never exercised in the form '{form}'")
+    if len(DEFAULTS) != 5:
+        fails.append(f"defaults: the pinned table has {len(DEFAULTS)} entries, expected 5")
+    for f in ("forms:n_matters", "forms:repeat_matters", "forms:SurfaceSubdivision.__init__:verbose_matters", "forms:VolumeSubdivision.__init__:verbose_matters",
+              "forms:sides_given_for_a_quad", "forms:sides_given_for_a_quad_with_taken_diagonal", "forms:arity3", "forms:arity4", "forms:arity5",
+              "forms:SurfaceSubdivision.triangulate_face:sides_given", "forms:SurfaceSubdivision.triangulate_face:sides_given_keyword",
+              "forms:SurfaceSubdivision.loop_subdivision:numpy_int", "forms:SurfaceSubdivision.subdivide_triangles_6:numpy_int"):
+        if f not in rep.flags:
+            fails.append("coverage flag missing: " + f)
+    for k, w in (("forms:surface_inputs", 47), ("forms:volume_inputs", 27), ("forms:polyline_inputs", 71)):
+        if rep.counters.get(k) != w:
+            fails.append(f"call forms: {k} = {rep.counters.get(k)}, expected {w}")
+    for kind in ("T", "TF", "FAN", "L", "Q3", "S6", "L2", "S6x2", "CFAN", "FSPLIT", "split_edge"):
+        if not rep.outcomes.get("forms:" + kind):
+            fails.append(f"call forms: operation {kind} was never executed")
+    c = "forms:explicit_form_raised_judged_by_the_main_exploration"
+    if rep.counters.get(c):
+        fails.append(f"{c} = {rep.counters[c]}: the unchanged library accepts these calls; their forms were not compared")
     return fails
